@@ -268,7 +268,14 @@ def kSymlink (fs : FS) (cfg : Cfg) (p : List Name) (target : Str) : FS × KRes :
   | .ok loc =>
     match fs.look loc with
     | some (.dir _) => (fs, .unsup)
-    | _ => (((fs.delName loc).alloc ⟨.symlink target, 0o777⟩).setName loc (.ref fs.next), .ok)
+    | _ =>
+      -- `os.symlink` resolves the path again after the `unlink`: when the removed link was part of
+      -- the path itself (`x -> .`, member `x/x`) the call fails and the fallback is entered
+      match kres (fs.delName loc) cfg false p with
+      | .ok loc' =>
+        if loc' = loc then (((fs.delName loc).alloc ⟨.symlink target, 0o777⟩).setName loc (.ref fs.next), .ok)
+        else (fs.delName loc, .unsup)
+      | .error _ => (fs.delName loc, .unsup)
 
 /-- `os.link(src, dst)`; failures enter the fallback of `makelink` (not modelled) -/
 def kLink (fs : FS) (cfg : Cfg) (src dst : List Name) : FS × KRes :=
